@@ -119,6 +119,13 @@ func loadContracts(repo, mirror string) (*ContractSet, error) {
 		m := filepath.Join(mirror, strings.ReplaceAll(short, "/", "_")+".go")
 		data, err := os.ReadFile(p)
 		src := p
+		if os.Getenv("VERIF_PREFER_MIRROR") == "1" {
+			// development mode: take the mirror copy even if the repository has one
+			if md, merr := os.ReadFile(m); merr == nil {
+				data, err = nil, fmt.Errorf("mirror preferred")
+				_ = md
+			}
+		}
 		if err != nil {
 			data, err = os.ReadFile(m)
 			src = m
@@ -280,6 +287,13 @@ func (cs *ContractSet) parseFile(pkg, file, text string) error {
 		case "at":
 			// at call callee#n assert expr
 			f := strings.Fields(rest)
+			if len(f) >= 3 && f[0] == "return" && f[1] == "assert" {
+				rest = strings.TrimSpace(rest[strings.Index(rest, " assert ")+len(" assert "):])
+				c := mk("assert")
+				c.At = "return"
+				cur.Asserts = append(cur.Asserts, c)
+				break
+			}
 			if len(f) < 4 || f[0] != "call" || f[2] != "assert" {
 				return fmt.Errorf("%s:%d: malformed at-clause (want: at call callee#n assert expr)", file, ln)
 			}
